@@ -265,3 +265,366 @@ Section Fast.
       exact (slow_loop_lines cfg M Hbin s (split_lines ltb s) c0 g_init 0 (S (length s)) Hat HR0 eq_refl eq_refl Hcnt).
   Qed.
 End Fast.
+
+(* ---------------------------------------------------------------------------------------------
+   The inverted fast path.  It is lazier than the reference: a line the pattern matches (a
+   non-result under inversion) is stepped over without emitting the after-context it may be owed;
+   that context is emitted at the next call of after_context_by_line.  The loop invariant
+   therefore carries a list [lag] of such lines between the reference state and the position. *)
+Section FastInv.
+  Variable cfg : config.
+  Variable M : matcher.
+  Hypothesis Hbin : c_binary cfg = BNone.
+  Variable s : bytes.
+  Notation ltb := (lt_byte (c_lt cfg)).
+  Notation K := (fun _ : nat => Continue).
+  Notation gstep := (g_step cfg (m_is_match M)).
+  Hypothesis Hfind : find_spec cfg M s.
+  Hypothesis Hinv : c_invert cfg = true.
+  Hypothesis Hnopt : c_passthru cfg = false.
+  Notation kslow := (fun c => match_by_line_slow cfg M K true c s).
+  Notation pm := (pmatch cfg M).
+
+  Lemma nonsuccess_of_pmatch_inv l : pm l = true -> nonsuccess cfg M l.
+  Proof. unfold nonsuccess, pmatch. intros ->. rewrite Hinv. reflexivity. Qed.
+
+  Lemma gstep_success l g : pm l = false -> gstep g l = g_step_s cfg g l true.
+  Proof. intro H. unfold g_step. fold (pm l). rewrite H, Hinv. reflexivity. Qed.
+
+  Lemma lines_at_app : forall a b p, lines_at cfg s (a ++ b) p ->
+    lines_seq cfg s a p /\ (b <> [] -> Forall (terminated ltb) a) /\ lines_at cfg s b (p + length (concat a)).
+  Proof.
+    induction a as [|x r IH]; intros b p H.
+    - cbn [app concat length] in *. rewrite Nat.add_0_r. split; [exact I|]. split; [constructor|exact H].
+    - cbn [app] in H. destruct H as (H1 & H2 & H3).
+      destruct (IH b (p + length x) H3) as (I1 & I2 & I3).
+      cbn [concat]. rewrite app_length, Nat.add_assoc.
+      split; [split; [exact H1|split; [|exact I1]]|split; [|exact I3]].
+      + intro Hr. apply H2. destruct r; [congruence|discriminate].
+      + intro Hb. constructor; [|exact (I2 Hb)]. apply H2. destruct r; [exact Hb|discriminate].
+  Qed.
+
+  Lemma before_noop c g p : R0 cfg s c g -> g_pend g = [] -> g_off g = p ->
+    before_context_by_line cfg K true c s p = OK true c.
+  Proof.
+    intros HR Hp Hoff. destruct HR as [Rabs Rbin Rlog Rafter Rsunk Rlaid Rllv Rllc Rln Rlnum Rap Rale].
+    rewrite Hp in Rllv. cbn in Rllv.
+    unfold before_context_by_line. destruct (Nat.eqb (c_before cfg) 0); [reflexivity|].
+    destruct (Nat.leb_spec p (last_line_visited c)); [reflexivity|lia].
+  Qed.
+
+  Record mrun_post (c c' : core) (gk : gstate) (q : nat) (xs : list bytes) : Prop := {
+    mp_pos : pos c' = pos c;
+    mp_matched : has_matched c' = true;
+    mp_log : log c' = g_out gk ++ [EBegin];
+    mp_bin : bin_off c' = None;
+    mp_off : g_off gk = q;
+    mp_ns : g_stopped gk = false;
+    mp_gm : xs <> [] -> g_matched gk = true;
+    mp_pend : xs <> [] -> g_pend gk = [];
+    mp_llv : xs <> [] -> last_line_visited c' = q;
+    mp_R0 : Forall (terminated ltb) xs -> R0 cfg s c' gk;
+  }.
+
+  (* a run of result lines, delivered one by one (before-context already handled) *)
+  Lemma matched_loop_run : forall xs fuel c g p,
+    R0 cfg s c g -> g_off g = p -> g_stopped g = false -> has_matched c = true -> g_pend g = [] ->
+    lines_seq cfg s xs p -> Forall (fun l => pm l = false) xs -> length xs < fuel ->
+    exists c', matched_loop cfg K true fuel c s p (p + length (concat xs)) = OK true c' /\
+               mrun_post c c' (fold_left gstep xs g) (p + length (concat xs)) xs.
+  Proof.
+    induction xs as [|x r IH]; intros fuel c g p HR Hoff Hns Hm Hpend Hseq Hall Hf.
+    - destruct fuel as [|f]; [cbn in Hf; lia|]. cbn [matched_loop concat length fold_left].
+      rewrite Nat.add_0_r. unfold ltb_. rewrite line_step_end by lia.
+      exists c. split; [reflexivity|]. pose proof HR as []. constructor; auto; congruence.
+    - destruct fuel as [|f]; [cbn in Hf; lia|].
+      destruct Hseq as (Hnl & Hterm & Hrest). inversion Hall as [|? ? Hx Hr].
+      pose proof (lines_seq_bound cfg s (x :: r) p (conj Hnl (conj Hterm Hrest)) ltac:(discriminate)) as Hbound.
+      cbn [matched_loop concat fold_left] in *. rewrite app_length in *. rewrite Nat.add_assoc.
+      unfold ltb_. rewrite (line_step_seq cfg s p x) by (auto; lia).
+      destruct (matched_step cfg Hbin s c g p x HR Hoff Hns Hnl) as (c2 & Hrun & H2bin & Hc3).
+      rewrite (set_has_matched_id c Hm) in Hrun.
+      rewrite (before_noop c g p HR Hpend Hoff) in Hrun. injection Hrun as <-.
+      cbn zeta in Hc3. destruct Hc3 as (Hp3 & Hlog3 & Hbin3 & Hm3 & Hllv3 & HR3).
+      rewrite (sink_matched_K cfg Hbin) by exact H2bin. cbn [andthen].
+      rewrite (gstep_success x g Hx).
+      set (c3 := CoreSinkProofs.post_matched cfg c s p (p + length x)) in *.
+      set (g' := g_step_s cfg g x true) in *.
+      assert (Hst' : g_stopped g' = false) by (unfold g', g_step_s; rewrite Hns; reflexivity).
+      assert (Hoff' : g_off g' = p + length x) by (unfold g', g_step_s; rewrite Hns, Hoff; reflexivity).
+      assert (Hgm' : g_matched g' = true) by (unfold g', g_step_s; rewrite Hns; reflexivity).
+      assert (Hgp' : g_pend g' = []) by (unfold g', g_step_s; rewrite Hns; reflexivity).
+      destruct r as [|x2 r2].
+      + cbn [fold_left concat length]. rewrite Nat.add_0_r.
+        destruct f as [|f']; [cbn in Hf; lia|]. cbn [matched_loop]. unfold ltb_. rewrite line_step_end by lia.
+        exists c3. split; [reflexivity|].
+        constructor; auto. intro Hall'. inversion Hall'. auto.
+      + assert (Ht : terminated ltb x) by (apply Hterm; discriminate).
+        destruct (IH f c3 g' (p + length x) (HR3 Ht) Hoff' Hst' Hm3 Hgp' Hrest Hr ltac:(cbn in Hf |- *; lia))
+          as (c' & Hrun' & [Q1 Q2 Q3 Q4 Q5 Q6 Q7 Q8 Q9 Q10]).
+        exists c'. split; [exact Hrun'|].
+        constructor; auto; try congruence.
+        * intros _. apply Q7. discriminate.
+        * intros _. apply Q8. discriminate.
+        * intros _. apply Q9. discriminate.
+        * intro Hall'. inversion Hall'. auto.
+  Qed.
+
+  Lemma after_ctx_empty c g p : R0 cfg s c g -> g_off g = p ->
+    after_context_by_line cfg K true c s p = OK true c.
+  Proof.
+    intros HR Hoff. pose proof HR as [Rabs Rbin Rlog Rafter Rsunk Rlaid Rllv Rllc Rln Rlnum Rap Rale].
+    unfold after_context_by_line.
+    destruct (Nat.eqb_spec (after_context_left c) 0) as [E0|E0]; [reflexivity|].
+    assert (Hllv : last_line_visited c = p).
+    { assert (1 <= g_after g) by lia. rewrite (Rap H) in Rllv. cbn in Rllv. lia. }
+    cbn [after_loop]. unfold ltb_. rewrite line_step_end by lia. reflexivity.
+  Qed.
+
+  (* one non-empty range of result lines: catch up on the lagging lines, before-context, the lines *)
+  Lemma invert_range xs c g0 lag p :
+    R0 cfg s c g0 -> g_stopped g0 = false -> c_stop_on_nonmatch cfg && g_matched g0 = false ->
+    has_matched c = true ->
+    lines_seq cfg s lag (g_off g0) -> Forall (terminated ltb) lag -> Forall (fun l => pm l = true) lag ->
+    p = g_off g0 + length (concat lag) ->
+    xs <> [] -> lines_seq cfg s xs p -> Forall (fun l => pm l = false) xs ->
+    exists c',
+      andthen (after_context_by_line cfg K true c s p) (fun c =>
+      andthen (before_context_by_line cfg K true c s p) (fun c =>
+      matched_loop cfg K true (S (length s)) c s p (p + length (concat xs)))) = OK true c' /\
+      mrun_post c c' (fold_left gstep xs (fold_left gstep lag g0)) (p + length (concat xs)) xs.
+  Proof.
+    intros HR Hns Hstop Hm Hlag Hlagt Hlagp Hp Hne Hseq Hall.
+    destruct (nonmatch_run cfg M Hbin s lag c g0 (g_off g0) HR eq_refl Hns Hnopt Hstop Hlag)
+      as (c2 & Hrun2 & [P1 P2 P3 P4 P5 P6 P7 P8]).
+    { eapply Forall_impl; [|exact Hlagp]. intro l. apply nonsuccess_of_pmatch_inv. }
+    rewrite <- Hp in Hrun2, P5. rewrite Hrun2. cbn [andthen].
+    set (gk := fold_left gstep lag g0) in *.
+    pose proof (P8 Hlagt) as HR2.
+    destruct xs as [|x r]; [congruence|].
+    destruct Hseq as (Hnl & Hterm & Hrest). inversion Hall as [|? ? Hx Hr].
+    pose proof (lines_seq_bound cfg s (x :: r) p (conj Hnl (conj Hterm Hrest)) ltac:(discriminate)) as Hbound.
+    assert (Hm2 : has_matched c2 = true) by congruence.
+    destruct (matched_step cfg Hbin s c2 gk p x HR2 P5 P6 Hnl) as (c3 & Hrun3 & H3bin & Hc4).
+    rewrite (set_has_matched_id c2 Hm2) in Hrun3. rewrite Hrun3. cbn [andthen].
+    cbn zeta in Hc4. destruct Hc4 as (Hp4 & Hlog4 & Hbin4 & Hm4 & Hllv4 & HR4).
+    cbn [matched_loop concat fold_left] in *. rewrite app_length in *. rewrite Nat.add_assoc.
+    unfold ltb_. rewrite (line_step_seq cfg s p x) by (auto; lia).
+    rewrite (sink_matched_K cfg Hbin) by exact H3bin. cbn [andthen].
+    rewrite (gstep_success x gk Hx).
+    set (c4 := CoreSinkProofs.post_matched cfg c3 s p (p + length x)) in *.
+    set (g' := g_step_s cfg gk x true) in *.
+    assert (Hst' : g_stopped g' = false) by (unfold g', g_step_s; rewrite P6; reflexivity).
+    assert (Hoff' : g_off g' = p + length x) by (unfold g', g_step_s; rewrite P6, P5; reflexivity).
+    assert (Hgm' : g_matched g' = true) by (unfold g', g_step_s; rewrite P6; reflexivity).
+    assert (Hgp' : g_pend g' = []) by (unfold g', g_step_s; rewrite P6; reflexivity).
+    assert (Hpos4 : pos c4 = pos c) by congruence.
+    destruct r as [|x2 r2].
+    - cbn [fold_left concat length]. rewrite Nat.add_0_r.
+      assert (Hs1 : 1 <= length s).
+      { destruct Hnl as (_ & Hb & [Ht|[[Hne' _] _]]);
+          [apply (terminated_length ltb) in Ht; lia|destruct x; [congruence|cbn in Hb; lia]]. }
+      destruct (length s) as [|n] eqn:En; [lia|]. cbn [matched_loop]. unfold ltb_. rewrite line_step_end by lia.
+      exists c4. split; [reflexivity|].
+      constructor; auto. intro Hall'. inversion Hall'. auto.
+    - assert (Ht : terminated ltb x) by (apply Hterm; discriminate).
+      assert (Hfuel : length (x2 :: r2) < length s).
+      { pose proof (lines_seq_bound cfg s (x2 :: r2) (p + length x) Hrest ltac:(discriminate)).
+        assert (length (x2 :: r2) <= length (concat (x2 :: r2))).
+        { clear -Hrest. revert Hrest. generalize (p + length x) as q. generalize (x2 :: r2) as ls.
+          induction ls as [|y ys IH]; intros q H; [cbn; lia|].
+          destruct H as ((Hsub & Hb & Hshape) & _ & Hr). cbn [concat length]. rewrite app_length.
+          specialize (IH _ Hr).
+          assert (1 <= length y).
+          { destruct Hshape as [Ht|[[Hne _] _]]; [now apply (terminated_length ltb)|destruct y; [congruence|cbn; lia]]. }
+          lia. }
+        pose proof (terminated_length ltb x Ht). lia. }
+      destruct (matched_loop_run (x2 :: r2) (length s) c4 g' (p + length x) (HR4 Ht) Hoff' Hst' Hm4 Hgp' Hrest Hr Hfuel)
+        as (c' & Hrun' & [Q1 Q2 Q3 Q4 Q5 Q6 Q7 Q8 Q9 Q10]).
+      exists c'. split; [exact Hrun'|].
+      constructor; auto; try congruence.
+      + intros _. apply Q7. discriminate.
+      + intros _. apply Q8. discriminate.
+      + intros _. apply Q9. discriminate.
+      + intro Hall'. inversion Hall'. auto.
+  Qed.
+
+  Lemma fold_app' {A B} (f : A -> B -> A) l1 l2 a : fold_left f (l1 ++ l2) a = fold_left f l2 (fold_left f l1 a).
+  Proof. apply fold_left_app. Qed.
+
+  (* the inverted fast loop over all the remaining lines, with lagging lines behind the position *)
+  Lemma inv_lines : forall fuel ls c g0 lag,
+    R0 cfg s c g0 -> has_matched c = g_matched g0 -> g_stopped g0 = false ->
+    lines_at cfg s (lag ++ ls) (g_off g0) -> Forall (fun l => pm l = true) lag ->
+    pos c = g_off g0 + length (concat lag) ->
+    (c_stop_on_nonmatch cfg && g_matched g0 = true -> lag = []) ->
+    length ls < fuel ->
+    let gf := fold_left gstep ls (fold_left gstep lag g0) in
+    exists b c', fast_then cfg M true K kslow fuel c s = OK b c' /\ Rfin c' gf /\ (b = true -> g_off gf = length s).
+  Proof.
+    induction fuel as [|f IH]; intros ls c g0 lag HR0 Rmatched Hns Hat Hlagp Hpos Hstoplag Hf gf; [lia|].
+    destruct (lines_at_app lag ls (g_off g0) Hat) as (Hlagseq & Hlagterm & Hatls).
+    rewrite <- Hpos in Hatls.
+    remember (pos c) as p eqn:Ep.
+    pose proof (lines_at_total cfg s ls p Hatls) as Htot.
+    pose proof (lines_count cfg s ls p Hatls) as Hcnt.
+    set (gk := fold_left gstep lag g0) in *.
+    cbn [fast_then]. rewrite <- ?Ep.
+    assert (Hnonlag : Forall (nonsuccess cfg M) lag).
+    { eapply Forall_impl; [|exact Hlagp]. intro l. apply nonsuccess_of_pmatch_inv. }
+    (* catching up at the very end *)
+    assert (Hfinish : ls = [] ->
+              exists c', andthen (after_context_by_line cfg K true c s (length s))
+                                 (fun c0 => OK true (set_pos c0 (length s))) = OK true c' /\
+                         Rfin c' gf /\ g_off gf = length s).
+    { intros ->. unfold gf. cbn [fold_left]. cbn [concat length] in Htot. rewrite Nat.add_0_r in Htot.
+      destruct (c_stop_on_nonmatch cfg && g_matched g0) eqn:Est.
+      - pose proof (Hstoplag eq_refl) as Hl0. subst lag. cbn [concat length] in Hpos.
+        rewrite <- Htot. rewrite (after_ctx_empty c g0 p HR0 ltac:(lia)). cbn [andthen].
+        exists (set_pos c p). split; [reflexivity|].
+        pose proof HR0 as [Rabs Rbin Rlog Rafter Rsunk Rlaid Rllv Rllc Rln Rlnum Rap Rale].
+        unfold gk. cbn [fold_left]. split; [|lia].
+        unfold Rfin. cbn [pos log bin_off set_pos]. repeat split; auto. lia.
+      - destruct (nonmatch_run cfg M Hbin s lag c g0 (g_off g0) HR0 eq_refl Hns Hnopt Est Hlagseq Hnonlag)
+          as (c1 & Hrun & [P1 P2 P3 P4 P5 P6 P7 P8]).
+        rewrite <- Hpos, Htot in Hrun, P5. rewrite Hrun. cbn [andthen].
+        exists (set_pos c1 (length s)). split; [reflexivity|]. fold gk in P3, P5. split; [|exact P5].
+        unfold Rfin. cbn [pos log bin_off set_pos]. rewrite P5. auto. }
+    destruct (Nat.leb_spec (length s) p) as [Hend|Hmore].
+    { assert (ls = []) by (destruct ls; [reflexivity|cbn in Hcnt; lia]).
+      destruct (Hfinish H) as (c' & Hrun & Hfin & Hoffgf). exists true, c'. auto. }
+    destruct (c_stop_on_nonmatch cfg && has_matched c) eqn:Estop.
+    { (* switch to the slow path: no line lags *)
+      rewrite Rmatched in Estop. pose proof (Hstoplag Estop) as Hl0. subst lag. cbn [concat length] in Hpos. cbn [app] in Hat.
+      unfold match_by_line_slow. rewrite <- Ep.
+      assert (Hp0 : p = g_off g0) by lia.
+      unfold gf, gk. cbn [fold_left].
+      apply (slow_loop_lines cfg M Hbin s ls c g0 p (S (length s))); auto.
+      - split; [rewrite <- Ep; exact Hp0|]. split; [rewrite Rmatched; reflexivity|exact HR0]. 
+      - lia. }
+    rewrite Hinv.
+    assert (Hstopg : c_stop_on_nonmatch cfg && g_matched g0 = false) by (rewrite <- Rmatched; exact Estop).
+    pose proof (Hfind c ls p (eq_sym Ep) Hatls) as Hf'.
+    unfold match_by_line_fast_invert.
+    destruct (find_by_line_fast cfg M c s) as [[[q e]|]|]; [| |contradiction].
+    - (* a line the pattern matches was found *)
+      destruct Hf' as (pre & l & post & Hls & Hpre & Hl & Hq & He). subst ls.
+      destruct (lines_at_split cfg s pre l post p Hatls) as (Hseq & Hterm & Hnl & Hlterm & Hpost).
+      rewrite <- Hq in Hnl, Hpost.
+      assert (Hlagt : Forall (terminated ltb) lag) by (apply Hlagterm; destruct pre; discriminate).
+      destruct pre as [|x r].
+      + (* empty range: the line is stepped over and lags *)
+        cbn [concat length] in Hq. rewrite Nat.add_0_r in Hq. subst q.
+        rewrite <- Ep. rewrite Nat.leb_refl. cbn [negb]. rewrite andb_false_r. cbn [andthen app] in *.
+        assert (Hgf : gf = fold_left gstep post (fold_left gstep (lag ++ [l]) g0)).
+        { unfold gf. rewrite fold_app'. cbn [fold_left]. reflexivity. }
+        rewrite Hgf.
+        apply (IH post (set_pos c e) g0 (lag ++ [l])); auto.
+        * apply R0_set_pos. exact HR0.
+        * rewrite <- app_assoc. exact Hat.
+        * apply Forall_app. split; [exact Hlagp|]. constructor; [exact Hl|constructor].
+        * cbn [pos set_pos]. rewrite concat_app, app_length. cbn [concat length]. rewrite app_nil_r.
+          lia.
+        * intro H. rewrite H in Hstopg. discriminate.
+        * cbn in Hf. lia.
+      + (* a non-empty range of result lines *)
+        assert (Hqgt : p < q).
+        { destruct Hseq as ((_ & _ & Hshape) & _ & _). subst q. cbn [concat]. rewrite app_length.
+          destruct Hshape as [Ht|[[Hne _] _]]; [apply (terminated_length ltb) in Ht; lia|destruct x; [congruence|cbn; lia]]. }
+        rewrite <- Ep. destruct (Nat.leb_spec q p) as [|_]; [lia|]. cbn [negb]. rewrite andb_true_r.
+        set (c1 := if c_stop_on_nonmatch cfg then set_pos c q else set_pos c e).
+        destruct (Nat.leb_spec q p) as [|_]; [lia|].
+        assert (HR1 : R0 cfg s (set_has_matched c1) g0).
+        { apply R0_set_has_matched. unfold c1. destruct (c_stop_on_nonmatch cfg); apply R0_set_pos; exact HR0. }
+        destruct (invert_range (x :: r) (set_has_matched c1) g0 lag p HR1 Hns Hstopg eq_refl Hlagseq Hlagt Hlagp
+                    ltac:(lia) ltac:(discriminate) Hseq Hpre)
+          as (c' & Hrun & [Q1 Q2 Q3 Q4 Q5 Q6 Q7 Q8 Q9 Q10]).
+        rewrite <- Hq in Hrun, Q5, Q9. rewrite Hrun. cbn [andthen].
+        set (gn := fold_left gstep (x :: r) gk) in *.
+        pose proof (Q10 Hterm) as HRn.
+        assert (Q5' : g_off gn = q) by exact Q5.
+        assert (Hgf : gf = fold_left gstep (l :: post) gn).
+        { unfold gf, gn. rewrite fold_app'. reflexivity. }
+        destruct (c_stop_on_nonmatch cfg) eqn:Ecs.
+        * (* the search must stop at l: it is left to the slow path *)
+          rewrite Hgf.
+          apply (IH (l :: post) c' gn []); auto.
+          -- rewrite Q2. symmetry. apply Q7. discriminate.
+          -- cbn [app]. rewrite Q5'. split; [exact Hnl|]. split; [exact Hlterm|exact Hpost].
+          -- cbn [concat length]. rewrite Q1, Q5'. unfold c1. rewrite ?Ecs. cbn [pos set_has_matched set_pos]. lia.
+          -- rewrite app_length in Hf. cbn in Hf |- *. lia.
+        * assert (Hgf2 : gf = fold_left gstep post (fold_left gstep [l] gn)).
+          { rewrite Hgf. reflexivity. }
+          rewrite Hgf2.
+          apply (IH post c' gn [l]); auto.
+          -- rewrite Q2. symmetry. apply Q7. discriminate.
+          -- cbn [app]. rewrite Q5'. split; [exact Hnl|]. split; [exact Hlterm|exact Hpost].
+          -- cbn [concat length]. rewrite app_nil_r. rewrite Q1, Q5'. unfold c1. rewrite ?Ecs. cbn [pos set_has_matched set_pos]. lia.
+          -- cbn [andb]. discriminate.
+          -- rewrite app_length in Hf. cbn in Hf |- *. lia.
+    - (* no further line matches the pattern: all the remaining lines are results *)
+      destruct ls as [|x r]; [cbn in Htot; lia|].
+      rewrite <- Ep. destruct (Nat.leb_spec (length s) p) as [|_]; [lia|].
+      assert (HR1 : R0 cfg s (set_has_matched (set_pos c (length s))) g0).
+      { apply R0_set_has_matched. apply R0_set_pos. exact HR0. }
+      assert (Hlagt : Forall (terminated ltb) lag) by (apply Hlagterm; discriminate).
+      destruct (invert_range (x :: r) (set_has_matched (set_pos c (length s))) g0 lag p HR1 Hns Hstopg eq_refl
+                  Hlagseq Hlagt Hlagp ltac:(lia) ltac:(discriminate) (lines_at_seq cfg s _ _ Hatls) Hf')
+        as (c' & Hrun & [Q1 Q2 Q3 Q4 Q5 Q6 Q7 Q8 Q9 Q10]).
+      rewrite Htot in Hrun, Q5, Q9. rewrite Hrun. cbn [andthen].
+      fold gf in Q3, Q5, Q6, Q7, Q8.
+      destruct f as [|f']; [cbn in Hf; lia|]. cbn [fast_then].
+      rewrite Q1. cbn [pos set_has_matched set_pos]. rewrite Nat.leb_refl.
+      assert (Hend : after_context_by_line cfg K true c' s (length s) = OK true c').
+      { unfold after_context_by_line. destruct (Nat.eqb (after_context_left c') 0); [reflexivity|].
+        cbn [after_loop]. rewrite (Q9 ltac:(discriminate)). unfold ltb_. rewrite line_step_end by lia. reflexivity. }
+      rewrite Hend. cbn [andthen].
+      assert (Q5' : g_off gf = length s) by exact Q5.
+      assert (Q3' : log c' = g_out gf ++ [EBegin]) by exact Q3.
+      exists true, (set_pos c' (length s)). split; [reflexivity|]. split; [|intros _; exact Q5'].
+      unfold Rfin. cbn [pos log bin_off set_pos]. rewrite Q5'. auto.
+  Qed.
+
+  Theorem slice_eq_ref_invert_proof :
+    slice_by_line_run cfg M K s = RunOk (grep_ref cfg (m_is_match M) s).
+  Proof.
+    apply (slice_run_assembly cfg M Hbin s). intros Hne.
+    set (c0 := set_log (core_new cfg) [EBegin]).
+    destruct (R_init cfg s) as (Hp0 & Hm0 & HR0). fold c0 in Hp0, Hm0, HR0.
+    pose proof (lines_at_shape cfg s _ (split_lines_shape ltb s) 0 ltac:(lia)
+                  ltac:(rewrite split_lines_concat; reflexivity)) as Hat.
+    assert (Hcnt : length (split_lines ltb s) < S (length s)).
+    { pose proof (lines_count cfg s _ _ Hat). lia. }
+    unfold match_by_line.
+    destruct (is_line_by_line_fast cfg M c0) eqn:Efast.
+    - unfold match_by_line_fast.
+      pose proof (conv_fast_loop cfg M true K (fun c => match_by_line_slow cfg M K true c s) s
+                    (S (S (length s))) c0) as Hconv.
+      destruct (inv_lines (S (S (length s))) (split_lines ltb s) c0 g_init [] HR0 Hm0 eq_refl Hat
+                  (Forall_nil _) Hp0 (fun _ => eq_refl) ltac:(lia))
+        as (b & c' & Hrun & Hfin & Hb).
+      rewrite Hrun in Hconv.
+      exists b, c'. split; [|split; assumption].
+      destruct (fast_loop cfg M K true (S (S (length s))) c0 s) as [[| |] c1|c1|]; cbn [conv] in Hconv;
+        try discriminate; try (injection Hconv as -> ->; reflexivity).
+      exact Hconv.
+    - unfold match_by_line_slow. change (pos c0) with 0.
+      exact (slow_loop_lines cfg M Hbin s (split_lines ltb s) c0 g_init 0 (S (length s)) Hat
+               (conj Hp0 (conj Hm0 HR0)) eq_refl eq_refl Hcnt).
+  Qed.
+End FastInv.
+
+(* every configuration: passthru forces the slow path; otherwise the fast or the slow path *)
+Theorem slice_eq_ref_proof :
+  forall (cfg : config) (M : matcher), c_binary cfg = BNone ->
+  forall s : bytes, find_spec cfg M s ->
+  slice_by_line_run cfg M (fun _ => Continue) s = RunOk (grep_ref cfg (m_is_match M) s).
+Proof.
+  intros cfg M Hbin s Hfind.
+  destruct (c_passthru cfg) eqn:Ept.
+  - apply slice_slow_eq_ref_proof; [exact Hbin|].
+    intro c. unfold is_line_by_line_fast. now rewrite Ept.
+  - destruct (c_invert cfg) eqn:Einv.
+    + apply slice_eq_ref_invert_proof; assumption.
+    + apply slice_eq_ref_noninvert_proof; assumption.
+Qed.
